@@ -222,11 +222,12 @@ def check_predict_tracking(chk, rep, repo):
     marks = [e for e in w.events if e.kind == "call" and e.name == "mark_nodes" and e.target == ("attr", G, "mark_nodes")]
     ok = len(marks) == 1 and marks[0].args == (after,) and marks[0].loops == li.loops
     if ok:
-        base = w.loops[li.loops[-1]].guards if li.loops else ()
-        extra = [gp for gp in marks[0].guards if gp not in base]
-        defined = (("cmp", "<", ("const", -1), after), True)
-        ok = all(gp in (defined, (("cmp", "<=", ("const", 0), after), True), (("cmp", "!=", ("const", -1), after), True))
-                 for gp in extra)
+        from ..ir import facts
+        base = facts(w.loops[li.loops[-1]].guards) if li.loops else ()
+        extra = [f for f in facts(marks[0].guards) if f not in base]
+        defined = (("cmp", "<", ("const", -1), after), ("cmp", "<=", ("const", 0), after),
+                   ("cmp", "!=", *sorted([("const", -1), after], key=repr)), ("cmp", "!=", ("const", -1), after))
+        ok = all(f in defined for f in extra)
     rep.fn("P1-mark", fn, "mark_nodes(conqueror) is called once per predicted sample", ok,
            "relevance marking must be applied to the conqueror of every sample (only a definedness test may guard it)",
            line=li.line)
